@@ -16,7 +16,7 @@ RULE = ("block size 0 x {READ/WRITE(10,12,16), WRITE SAME(10,16), ATA PASS-THROU
         "tuples with at most 1 deviation, through the constructor and through the facade on both transports; all 256 opcode values into "
         "init_cdb and three constructors; PERSISTENT RESERVE IN service actions -1..40 through the facade; EXTENDED COPY LID1/LID4 with each "
         "unknown key in CSCD and segment descriptors, unknown / valid-unimplemented / implemented type codes, LU ID TYPE 0..3, unknown device "
-        "types; TransportIDs over protocols x format flag x session id. Every case also states whether it must be accepted, so that refusing "
+        "types, codes given by name in the wrong field (before and after a valid use of the same names); TransportIDs over protocols x format flag x session id. Every case also states whether it must be accepted, so that refusing "
         "valid input is reported too. Non-trivial = the request is invalid; distinct = distinct (kind, case).")
 ASSUMPTIONS = [
     "the 'specific error' is identified by exception class name (the metaclass mints MissingBlocksizeException/OpcodeException per class): MissingBlocksizeException, OpcodeException, ValueError; NotImplementedError is accepted only for descriptor type codes the standard defines but the library documents as not implemented",
@@ -218,6 +218,57 @@ def run_case(case, obs=None):
         if sent:
             v.append(("xcopy%d/%s/sent" % (ver, what), "%s: %d command(s) reached the device" % (where, sent)))
         return v
+    if kind == "xnames":
+        # descriptor codes given by *name*: a name valid for one field must still be refused in a field governed by another table,
+        # also after it has been resolved legitimately earlier in the same process (warm=1)
+        _, ver, tr, warm, field, name = case
+        tkey = "target_descriptor_list" if ver == 4 else "cscd_descriptor_list"
+        pkey = "target_descriptor_parameters" if ver == 4 else "cscd_descriptor_parameters"
+        e4 = "Identification descriptor target descriptor" if ver == 4 else "Identification Descriptor CSCD descriptor"
+
+        def tgt_named():
+            t = dict(VALID_TARGET)
+            t[pkey] = t.pop("target_descriptor_parameters")
+            t["descriptor_type_code"] = e4
+            t["peripheral_device_type"] = "Block"
+            return t
+        seg = seg_b2b(ver)
+        seg["descriptor_type_code"] = "Copy from block device to block device"
+        rig = harness.Rig(tr, 0x00)
+        try:
+            s = rig.facade()
+            m = "extendedcopy%d" % ver
+            if warm:
+                oc0 = outcome_of(lambda: getattr(s, m)(**{tkey: [tgt_named()], "segment_descriptor_list": [dict(seg)]}))
+                if oc0[0] != "ret":
+                    return [("xcopy%d/names/valid_refused" % ver, "extendedcopy%d with codes given by name raised %s: %s" % (ver, type(oc0[1]).__name__, oc0[1]))]
+            t = tgt_named()
+            sg = dict(seg_b2b(ver))
+            if field == "device_type":
+                t["peripheral_device_type"] = name
+            elif field == "target_code":
+                t["descriptor_type_code"] = name
+            else:
+                sg["descriptor_type_code"] = name
+            n0 = len(rig.target.log)
+            oc = outcome_of(lambda: getattr(s, m)(**{tkey: [t], "segment_descriptor_list": [sg]}))
+            sent = len(rig.target.log) - n0
+        finally:
+            rig.close()
+        if obs is not None:
+            obs.append((oc[0], type(oc[1]).__name__, sent))
+        valid = (field, name) in (("device_type", "Block"), ("segment_code", "Copy from block device to block device"), ("segment_code", "block -> block"),
+                                  ("target_code", e4))
+        where = "extendedcopy%d %s=%r (by name, %s) via %s" % (ver, field, name, "after a valid use of the names" if warm else "first use", tr)
+        if valid:
+            v = expect_accept(oc, where, "xcopy%d/names" % ver)
+            if not v and sent != 1:
+                v.append(("xcopy%d/names/sent" % ver, "%s: %d commands sent" % (where, sent)))
+            return v
+        v = expect_refusal(oc, ["ValueError"], where, "xcopy%d/names/%s" % (ver, field))
+        if sent:
+            v.append(("xcopy%d/names/%s/sent" % (ver, field), "%s: %d command(s) reached the device" % (where, sent)))
+        return v
     if kind == "tid":
         _, tr, proto, fmt, sid, route = case
         tid = {"protocol_id": proto}
@@ -312,6 +363,13 @@ def run_partition(part, tier, seed):
                 do(["xcopy", ver, tr, "lu_id_type", v], nontrivial=v != 0)
             for v in range(32):
                 do(["xcopy", ver, tr, "device_type", v])
+            e4 = "Identification descriptor target descriptor" if ver == 4 else "Identification Descriptor CSCD descriptor"
+            for warm in (0, 1):
+                for field in ("device_type", "target_code", "segment_code"):
+                    for nm in ("Block", "Stream", "block -> block", "Copy from block device to block device", e4, "Direct access block device (e.g., magnetic disk)"):
+                        if field == "device_type" and nm in ("Stream", "Direct access block device (e.g., magnetic disk)"):
+                            continue       # also in the device-type table
+                        do(["xnames", ver, tr, warm, field, nm])
     elif kind == "tid":
         for tr in ("sgio", "iscsi"):
             for proto in (0, 3, 4, 5, 6, 0x0A):
